@@ -137,6 +137,7 @@ class State:
         self.bools = {}  # opaque predicate name -> bool
         self.nzp = set()  # repr of polynomials known non-zero
         self.fid = 0  # current frame id: locals are keyed (fid, index)
+        self.egcds = []  # (P, Q, gsym, xsym, ysym): extended_gcd(P, Q) = (g, x, y) with P*x + Q*y = g >= 0
 
     def fork(self):
         s = State()
@@ -151,6 +152,7 @@ class State:
         s.bools = dict(self.bools)
         s.nzp = set(self.nzp)
         s.fid = self.fid
+        s.egcds = list(self.egcds)
         return s
 
     def fresh(self, base):
@@ -164,6 +166,7 @@ class State:
         self.subst = {k: v.subst(m) for k, v in self.subst.items()}
         self.subst[sym] = poly
         self.divs = [(x.subst(m), y.subst(m), q, r) for (x, y, q, r) in self.divs]
+        self.egcds = [(x.subst(m), y.subst(m), g, xs, ys) for (x, y, g, xs, ys) in self.egcds]
 
     def add_nz(self, sym):
         self.nz.add(sym)
